@@ -20,6 +20,7 @@ type fsNode struct {
 	data         []Value         // file content (byte terms)
 	vsize        int             // logical size when larger than len(data): the rest reads as zeros (sparse file)
 	patches      map[int][]Value // sparse file: bytes written at an offset beyond len(data)
+	vsizeT       *Term           // sparse file whose length is symbolic: only its size can be asked for
 	mtime        Value           // time.Time value
 	mode         uint32
 	dirty        bool // written since last fsync (ghost)
